@@ -94,10 +94,11 @@ def _to_val(x):
     return x
 
 
-def parse_out(stdout, rel="Out"):
-    """rows of `(print-function <rel>S)` (the small-range copy of rel): lines `(<rel>S a1 .. an) -> ...`;
-    arguments are integers or constructor terms"""
-    rel = rel + "S"
+def parse_out(stdout, rel="Out", raw=False):
+    """rows of `(print-function <rel>S)` (the small-range copy of rel; raw=True: of rel itself): lines
+    `(<rel>S a1 .. an) -> ...`; arguments are integers or constructor terms"""
+    if not raw:
+        rel = rel + "S"
     rows = set()
     for line in stdout.splitlines():
         line = line.strip()
@@ -110,6 +111,8 @@ def parse_out(stdout, rel="Out"):
         except IndexError:
             continue
         if not isinstance(x, list) or x[0] != rel:
+            continue
+        if raw and len(line.split("->")[0].split()) == 0:
             continue
         rows.add(tuple(_to_val(y) for y in x[1:]))
     return rows
@@ -936,7 +939,7 @@ def replay_artefact(binary, path, workdir):
         return (rc != 0), "program exited %d (0 expected)\n%s" % (rc, err[-600:])
     if rc != 0:
         return None, "program exited %d: %s" % (rc, err[-400:])
-    real = {k: {t for t in parse_out(out, k) if all_small(t)} for k in exp}
+    real = {k: (parse_out(out, k[:-4], raw=True) if k.endswith("!raw") else {t for t in parse_out(out, k) if all_small(t)}) for k in exp}
     note = "real (small range): %s\nexpected: %s\n" % ({k: sorted(v) for k, v in real.items()}, {k: sorted(v) for k, v in exp.items()})
     return (real != exp), note
 
@@ -997,6 +1000,22 @@ def work_item(args):
             # (check body) sees subsumed rows; its expected outcome comes from the whole final database
             tid_guess = None
             tail = ["(check %s)" % atoms.text]
+        # whole-range comparison (profile rows included) when the rule's total output is of manageable size: exercises
+        # the executor's large-subset paths (cached trie nodes, index choice, dynamic re-sorting), which the
+        # small-range comparison cannot see.  Only for monotone histories (no subsumption, no unions).
+        exp_full = {}
+        if prop in ("C02", "C03") and not res["unions"]:
+            ident = {nm: nm for nm in atoms.types}
+            pdb = profile_db(atoms, profile, seed, ident)
+            for rs, (outrel, ropts) in sorted(rules.items()):
+                last = max([k_ for k_, r_ in enumerate(schedule) if r_ == rs], default=None)
+                if last is None:
+                    continue
+                fdb = merged(pdb, db_at_step(placed, last, None, ident, 0))
+                ef = eval_body(atoms, ident, fdb, small_only=False, head=head)
+                if len(ef) <= 30000:
+                    exp_full[outrel] = ef
+            tail = (tail or []) + ["(print-function %s 40000)" % o for o in sorted(exp_full)]
         text = gen.render_program(atoms, no_decomp, profile, steps, seed=seed, rules=rules, head=head, tail=tail)
         rc, out, err, events = run_program(binary, text, workdir, tag)
         check_failed = False
@@ -1180,13 +1199,19 @@ def work_item(args):
                         res["errors"].append("%s: solver returned %s on the check plan" % (tag, v))
             res["solver_s"] += VC.solver_s
             res["queries"] += VC.queries
+        for outrel, ef in sorted(exp_full.items()):
+            rf = parse_out(out, outrel, raw=True)
+            res["sanity"].append({"tag": tag, "full_range": outrel, "real_out": len(rf), "expected": len(ef), "agree": rf == ef})
+            if rf != ef:
+                real_all[outrel + "!raw"] = rf
+                exp_all[outrel + "!raw"] = ef
         if real_all != exp_all:
             art = os.path.join(workdir, tag + ".concrete.txt")
             write_artefact(art, prop, "concrete cross-check: the real engine's output differs from the nested-loop meaning of the body",
                            text, exp_all, real_all, "shape=%s body=%s schedule=%s" % (sid, body, res["schedule"]))
             res["violations"].append({"key": "concrete:" + tag, "what": "real output differs from the body's meaning on a concrete "
                                       "history (found by the concrete cross-check of the model, no solver involved): real %s expected %s"
-                                      % ({k: sorted(v) for k, v in real_all.items()}, {k: sorted(v) for k, v in exp_all.items()}),
+                                      % ({k: sorted(v)[:40] for k, v in real_all.items()}, {k: sorted(v)[:40] for k, v in exp_all.items()}),
                                       "replay": art, "reproduced": True})
         res["solver_s"] += V.solver_s
         res["queries"] += V.queries
